@@ -2232,7 +2232,15 @@ func (p *Parser) evaluateUnaryOperation(ctx context) (Expression, error) {
 		}
 	}
 	valueToken := p.peek()
-	expr, err := p.evaluateSingleExpression(ctx)
+	var expr Expression
+	var err error
+
+	// The operand of a negation may be negated itself (!!ok).
+	if negate {
+		expr, err = p.evaluateUnaryOperation(ctx)
+	} else {
+		expr, err = p.evaluateSingleExpression(ctx)
+	}
 
 	if err != nil {
 		return nil, err
